@@ -1,7 +1,7 @@
 (* C05 — every persistence-matrix flavour computes the same, correct barcode.
    Property theorems only (proofs in Reduce.v / ReduceExec.v). *)
 From Coq Require Import ZArith List Znumtheory.
-Require Import Reduce ReduceExec.
+Require Import Reduce ReduceExec ReduceAlg.
 Local Open Scope Z_scope.
 
 (* The pairing of a boundary matrix D over Z_p is well defined: any two reduced matrices obtained from D by
@@ -40,6 +40,34 @@ Theorem C05_low_of_combination : forall p, prime p -> forall n M c j m,
   exists m', (m <= m')%nat /\ is_low p n (comb M c (S j)) m'.
 Proof. exact low_mono. Qed.
 Print Assumptions C05_low_of_combination.
+
+(* ALGORITHM MODEL of the insertion of a boundary (RU_matrix::_reduce_column, Boundary_matrix + Base_pairing::_reduce,
+   ReduceExec.reduce): the new column is reduced by repeatedly adding a multiple of the EARLIER column with the same
+   lowest entry.  For every matrix and prime, from any state whose first j columns are reduced the loop terminates, keeps
+   "R is obtained from D by an upper-triangular transformation with invertible diagonal", leaves the earlier columns
+   untouched, and ends with the first j+1 columns reduced.  (The exposed R of the implementation is compared EXACTLY with
+   this model's R on every generated history without swaps, see ocaml/pm_oracle.ml.) *)
+Theorem C05_ru_insert_inv : forall p, prime p -> forall n D R j, (j < n)%nat -> tri p n D R -> reduced_upto p n R j ->
+  exists R', reduces p n j R R' /\ tri p n D R' /\ reduced_upto p n R' (S j) /\ forall j', j' <> j -> R' j' = R j'.
+Proof. exact ru_insert_inv. Qed.
+Print Assumptions C05_ru_insert_inv.
+
+(* one step of the loop: the decomposition is kept and the low of the column strictly decreases (termination measure) *)
+Theorem C05_reduction_step_keeps_decomposition : forall p, prime p -> forall n D R j k c,
+  tri p n D R -> (k < j)%nat -> (j < n)%nat -> tri p n D (col_add R j k c).
+Proof. exact tri_col_add. Qed.
+Print Assumptions C05_reduction_step_keeps_decomposition.
+
+Theorem C05_reduction_step_lowers : forall p, prime p -> forall n R j k c m,
+  is_low p n (R j) m -> is_low p n (R k) m -> zm p (R j m + c * R k m) ->
+  is_zero p n (col_add R j k c j) \/ exists m', (m' < m)%nat /\ is_low p n (col_add R j k c j) m'.
+Proof. exact col_add_lowers. Qed.
+Print Assumptions C05_reduction_step_lowers.
+
+(* hence a reduced decomposition exists for every D: the pairing of C05_pairing_unique is defined for every input *)
+Theorem C05_standard_reduction_exists : forall p, prime p -> forall n D, exists R, tri p n D R /\ reduced p n R.
+Proof. exact standard_reduction_exists. Qed.
+Print Assumptions C05_standard_reduction_exists.
 
 (* Full statement not proved: the executable reduction always produces a certificate (it is re-checked at run time
    for every input instead: certified_lows returns None otherwise and the check reports an oracle failure). *)
